@@ -5,7 +5,6 @@ package c19
 
 import (
 	"encoding/binary"
-	"os"
 	"strings"
 	"unicode/utf8"
 
@@ -16,8 +15,6 @@ import (
 
 	"verif/harness/kit"
 )
-
-func thorough() bool { return os.Getenv("VERIF_TIER") == "thorough" }
 
 var hostileRunes = []rune{
 	0, 0x2028, 0x2029, '<', '>', '&', '"', '\'', '\\', '/', 0x7f, 0x80, 0x7ff, 0x800, 0xfffd, 0xfeff, 0xd7ff, 0xe000,
